@@ -17,8 +17,14 @@ theorem C07_gen_loadCalls : Generated.loadCalls = some loadCallSites := by decid
     visits the bases — the definition of the model's `slotsFinder`. -/
 theorem C07_gen_slotsFinder : Generated.slotsFinder = some slotsFinderShape := by decide
 
+/-- `utils.ITERABLE_TYPES`, `utils.PRIMITIVE_TYPES` and `jsonclass.SUPPORTED_TYPES` hold exactly the type names of
+    the model's tables.  The tables are only ever handed to `isinstance` (and added to one another), for which the
+    order of the members has no meaning: the comparison is up to permutation (`List.isPerm` — same members, same
+    multiplicities), so that reordering a tuple in the source is not an alarm while adding, dropping or replacing
+    a member still is. -/
 theorem C07_gen_typeTables :
-    Generated.typeTables = some (iterableTypeNames, primitiveTypeNames, supportedTypeNames) := by decide
+    Generated.typeTables.map (fun t => t.1.isPerm iterableTypeNames && t.2.1.isPerm primitiveTypeNames
+      && t.2.2.isPerm supportedTypeNames) = some true := by decide
 
 /-- The remote-call path: both calls of the class translator in jsonrpc.py (`dump`, `load`) are reached whenever
     `config.use_jsonclass` holds — whatever the payload is (a dict, a batch list, …) — and `loads` goes through
